@@ -33,6 +33,7 @@ type connPlan struct {
 	ServerSends []int   `json:"server_sends"`
 	SecondEnd   string  `json:"second_end"`  // "" or another terminating event racing with the first
 	IdleMs      int     `json:"idle_ms"`     // the server-side actor lets this much simulated time pass before its Sends (0 = none)
+	Direct      bool    `json:"direct"`      // the session is started by the application itself (NewSession(mgr, conn).Start()), not by the accept loop
 	CloseFails  bool    `json:"close_fails"` // the server side's conn.Close() returns an error (the connection is closed all the same)
 }
 
@@ -71,6 +72,7 @@ func drawC16(rt *rapid.T) interface{} {
 		}
 		p.IdleMs = rapid.SampledFrom([]int{0, 0, 0, 10, 100, 10000, 30000}).Draw(rt, "idle")
 		p.CloseFails = rapid.IntRange(0, 5).Draw(rt, "closefails") == 0
+		p.Direct = rapid.IntRange(0, 5).Draw(rt, "direct") == 0
 		if rapid.IntRange(0, 4).Draw(rt, "second") == 0 {
 			p.SecondEnd = rapid.SampledFrom([]string{"local-close", "peer-close", "reset"}).Draw(rt, "end2")
 		}
@@ -166,6 +168,7 @@ func runC16(t *testing.T, sci interface{}, keepLog bool) *hx.Outcome {
 	var mgr *stcp.SessionMgr
 	var maxSeen int32
 	started := false
+	anyDirect := false
 	observe := func(s *simrt.Sim) {
 		if !started {
 			return
@@ -173,7 +176,7 @@ func runC16(t *testing.T, sci interface{}, keepLog bool) *hx.Outcome {
 		if c := mgr.ConnCount(); c > maxSeen {
 			maxSeen = c
 		}
-		if c := mgr.ConnCount(); c > sc.MaxConn {
+		if c := mgr.ConnCount(); c > sc.MaxConn && !anyDirect { // sessions the application starts itself are not subject to the accept loop's limit
 			s.Fail("count-exceeds-max", "connection count %d exceeds the configured maximum %d", c, sc.MaxConn)
 		}
 		if c := mgr.ConnCount(); c < 0 {
@@ -207,7 +210,15 @@ func runC16(t *testing.T, sci interface{}, keepLog bool) *hx.Outcome {
 			cs := &connState{plan: plan}
 			h.conns[name] = cs
 			states = append(states, cs)
-			cs.client = ln.Dial(name)
+			if plan.Direct {
+				var srvEnd *simnet.SimConn
+				cs.client, srvEnd = nw.Pipe(name)
+				anyDirect = true
+				stcp.NewSession(mgr, srvEnd).Start()
+				s.Count("session-started-directly")
+			} else {
+				cs.client = ln.Dial(name)
+			}
 			if plan.CloseFails {
 				cs.client.Peer().CloseErr = errors.New("simnet: failed to send close notify (connection closed anyway)")
 			}
@@ -405,7 +416,7 @@ func TestC16(t *testing.T) {
 		Stubs:       []string{"net (simnet: listener the harness dials, full-duplex bounded byte pipes, deadlines on the simulated clock, reset / peer close / temporary accept errors)", "time (simtime)", "sync (simsync)", "goroutine scheduling (simrt)"},
 		Rule: "scenario = max connections {1,2,3,8} x read/write timeouts x pipe buffer {8,64,4096} x 1-4 connections, each with 0-4 client frames (echo / swallow / handler error / handler panic), a reading or non-reading peer, 0-5 server Sends of 1-200 bytes, a terminating event (local Close, peer close, reset, silence -> timeout) after a drawn delay and optionally a second racing one, temporary accept errors x scheduler knobs/tape; " +
 			"non-trivial = >=2 tasks and >=1 switch; distinct = distinct event-log hash",
-		Probes:      []string{"clean-local-close", "connection-refused-over-max", "count-reached-max", "net-accept-error-injected", "net-read-timeout", "net-write-timeout", "net-reset", "idle-before-send", "net-close-returns-error"},
+		Probes:      []string{"clean-local-close", "connection-refused-over-max", "count-reached-max", "net-accept-error-injected", "net-read-timeout", "net-write-timeout", "net-reset", "idle-before-send", "net-close-returns-error", "session-started-directly"},
 		Assumptions: []string{"simnet close semantics: the peer reads what was written before the close, then EOF; a reset drops buffered data", "TLS, OS socket buffers and TCP half-close are out of scope"},
 	})
 }
